@@ -81,6 +81,7 @@ PROPS = {
     },
     "C19": {
         "theories": ["file system as a ghost map path -> array; storage view of C17"],
+        "property_probes": "contracts.c19_dump:PROPERTY_PROBES",
         "lemmas": [],
         "validations": ["numpyio", "numpy"],
         "assumptions": [
